@@ -76,6 +76,14 @@ theorem honest_deal_still_served (st : DkgSt) (ops : List DkgOp) (idx t : Nat)
   have := honest_deal_served (dkgRun Cfg.all st ops).1 idx t (by rw [hn]; exact hidx) hnew (by rw [hn]; exact ht) (by rw [hn, hm]; exact hme)
   rw [hm] at this; exact this
 
+/-- **genGroup → DistKeyShare**: after ANY history of deals and responses every aggregator the
+generator holds stores a deal whose share has a value, so `DistKeyShare` never dereferences a missing
+deal or a nil scalar (this is what rejecting a value-less share before the aggregator exists buys). -/
+theorem distKeyShare_total (n me : Nat) (ops : List DkgOp) :
+    (distKeyShare (dkgRun Cfg.current (DkgSt.init n me) ops).1).isPanic = false := by
+  rw [guards_present]
+  exact distKeyShare_good _ (dkgRun_good ops _ (goodVers_init n me))
+
 /-- the two stages entered after the context ended (no generator) or with an element of another type -/
 theorem stage_entry_total (haveDkg : Bool) (e : Elem) :
     (stageEntry Cfg.current.dealsDkgNil haveDkg "s").isPanic = false ∧ (stageCast Cfg.current.dealsCast e "s").isPanic = false ∧
@@ -157,7 +165,10 @@ example : (genDkg { Cfg.all with gdkgGuard := false } 3 [⟨0, some .own⟩, ⟨
 example : (processDeal { Cfg.all with encNil := false } (DkgSt.init 3 0) ⟨1, none⟩).2.isPanic = true := by decide
 example : (processDeal { Cfg.all with nonceLen := false } (DkgSt.init 3 0) ⟨1, some ⟨true, true, 11, .fail⟩⟩).2.isPanic = true := by decide
 example : (processDeal { Cfg.all with secShareNil := false } (DkgSt.init 3 0) ⟨1, some ⟨true, true, 12, .plain ⟨none, 2, true, true⟩⟩⟩).2.isPanic = true := by decide
-example : (processDeal { Cfg.all with shareVNil := false } (DkgSt.init 3 0) ⟨1, some ⟨true, true, 12, .plain ⟨some (0, false), 2, true, true⟩⟩⟩).2.isPanic = true := by decide
+example : (processDeal { Cfg.all with shareVNil := false, secShareNil := false } (DkgSt.init 3 0) ⟨1, some ⟨true, true, 12, .plain ⟨some (0, false), 2, true, true⟩⟩⟩).2.isPanic = true := by decide
+example : (distKeyShare (dkgRun { Cfg.all with secShareNil := false } (DkgSt.init 3 0)
+    [.deal ⟨1, some ⟨true, true, 12, .plain ⟨some (0, false), 2, true, true⟩⟩⟩]).1).isPanic = true := by decide
+example : (processDeal Cfg.all (DkgSt.init 3 0) ⟨1, some ⟨true, true, 12, .plain ⟨some (0, false), 2, true, true⟩⟩⟩).2 = .err "noshare" := by decide
 example : (processDeal { Cfg.all with findPubDkg := false } (DkgSt.init 3 0) ⟨3, none⟩).2.isPanic = true := by decide
 example : (dkgRun { Cfg.all with respNil := false } (DkgSt.init 3 0) [.deal (honestDeal 1 0 2), .resp ⟨1, none⟩]).2.any Out.isPanic = true := by decide
 example : (dkgRun Cfg.all (DkgSt.init 3 0) [.deal (honestDeal 1 0 2), .resp ⟨1, none⟩, .resp ⟨1, some ⟨true, 2, true, true⟩⟩]).2
